@@ -678,7 +678,7 @@ class SymbolicModeCM(StackMixin, ModeMixin, LibModel):
     satisfy this same contract: induction on the nesting depth, A9)."""
     qual = 'symbolic:symbolic_mode'
     cls = None
-    props = ('C08',)
+    props = ('C08', 'C12')
     modes = ('sound',)
     cm_name = 'symbolic_mode'
     inline = ()
@@ -708,6 +708,29 @@ class SymbolicModeCM(StackMixin, ModeMixin, LibModel):
             return [(st, ZV(z3.Function('root_of', Z.Node, Z.Node)(recv.t), 'node'))]
         return super().getattr(eng, st, recv, name)
 
+    def setattr(self, eng, st, recv, name, v):
+        if isinstance(recv, ZV) and recv.ty in ('node', 'optnode') and name == 'rule_mode':
+            # QueryObjectDescriptor.rule_mode: the description's selected variables are inferred by conclusions
+            st = st.clone()
+            st.ghost['rule_marked'] = st.ghost.get('rule_marked', []) + [(recv.t, eng.to_z3_bool(eng.truth(st, v)))]
+            return [st]
+        return super().setattr(eng, st, recv, name, v)
+
+    def rule_description_marked(self, eng, st):
+        """C12 (rule trees): a query handed to rule_mode(query) - directly a description, or a quantifier over one - is a rule
+        description when the block starts: its selected variable is then bound by the conclusions only (a row whose
+        conclusion was drawn before binds nothing instead of ranging over the registry)."""
+        q = st.locals.get('query')
+        if not (isinstance(q, ZV) and q.ty == 'node'):
+            return
+        mode = st.locals['mode']
+        is_rule = z3.BoolVal(True) if self.cm_name == 'rule_mode' else as_mode(mode) == RuleMode
+        qn = q.t
+        d = z3.If(isa(str_const('ResultQuantifier'), qn), Z.f_child(qn), qn)
+        marked = z3.Or(*[z3.And(n == d, b) for n, b in st.ghost.get('rule_marked', [])]) if st.ghost.get('rule_marked') else z3.BoolVal(False)
+        eng.oblige(st, "C12/rule_mode(query)/the-description-is-marked-as-a-rule-description-when-the-block-starts",
+                   z3.Implies(z3.And(is_rule, isa(str_const('QueryObjectDescriptor'), d)), marked))
+
     def call(self, eng, st, f, args, kwargs, node):
         if isinstance(f, Meth) and isinstance(f.recv, ZV) and f.recv.ty == 'node' and f.name in ('__enter__', '__exit__'):
             q = self.src.resolve_method('SymbolicExpression', f.name)
@@ -732,6 +755,7 @@ class SymbolicModeCM(StackMixin, ModeMixin, LibModel):
         if self.is_cm_yield(st, node):
             return self.cm_yield(eng, st, v, node)
         # the yield of the manager under proof: the block runs here; it is balanced, and it may raise
+        self.rule_description_marked(eng, st)
         a = st.clone()
         a.path.append('block:completes')
         b = st.clone()
